@@ -638,7 +638,22 @@ func (g *gen) varGraph() (customs []Decl, users []Decl) {
 	}
 	names = names[:n]
 	edges := make([][]string, n) // references of names[i]
-	if r.Chance(3, 5) {
+	if r.Chance(1, 4) {
+		// a shape of the common reference-graph dimension (refs.go): self / 2-cycle / cycle / rho / diamond / chain / dangling / random
+		gr := g.refGraph()
+		n = gr.n
+		names = g.shuffled(customNames, n)
+		edges = make([][]string, n)
+		for i, out := range gr.out {
+			for _, j := range out {
+				if j < 0 {
+					edges[i] = append(edges[i], "--undefined")
+				} else {
+					edges[i] = append(edges[i], names[j])
+				}
+			}
+		}
+	} else if r.Chance(3, 5) {
 		// a cycle through the first k names (k = 1: self reference)
 		k := r.Range(1, n)
 		for i := 0; i < k; i++ {
@@ -1314,6 +1329,9 @@ func (g *gen) element(tag string, depth int) *Node {
 	}
 	if r.Chance(1, 30) {
 		n.NoClose = true
+	}
+	if tag == "svg" && r.Chance(1, 3) {
+		return g.svgGraph(false) // definitions referencing each other along a reference graph (refs.go)
 	}
 	if tag == "svg" {
 		n.Attrs = append(n.Attrs, g.svgAttrs("svg")...)
